@@ -2,6 +2,11 @@
 from .common import *
 from .c03 import div_pair
 from .c08 import iroot, pow_case
+from .c10 import str_case
+
+# Note on `is_multiple_of(x, 0)` / `divides(x, 0)`: the crate panics (remainder by zero) whereas num-integer's impls for
+# the primitive integers return `x == 0`.  The trait documentation does not fix the answer, so Drive/C18 accepts
+# `P|x==0` there; the zero-divisor class is always generated (no generator class of this file is switched off).
 
 
 def fib_pair(rng, W):
@@ -24,6 +29,8 @@ def gcd_pair(rng, w, n, signed):
     if c <= 3:
         g = rng.randrange(1, 1 << rng.randrange(1, max(2, W // 2)))
         i, j = rng.randrange(W // 2), rng.randrange(W // 2)
+        if rng.random() < 0.35:
+            j = max(0, i + rng.choice([-1, 0, 0, 1]))      # a large COMMON power of two (b_tz of the binary gcd)
         a = (g * (2 * rng.randrange(1 << (W // 4)) + 1) << i) % (M >> 1)
         b = (g * (2 * rng.randrange(1 << (W // 4)) + 1) << j) % (M >> 1)
         if signed:
@@ -38,41 +45,140 @@ def gcd_pair(rng, w, n, signed):
     return t, a, b
 
 
-def root_case(rng, w, n, signed):
+def lcm_pair(rng, w, n, signed):
+    """a = g*p, b = g*q with g*p*q next to the type limit: the lcm is the last representable / first unrepresentable one"""
     W = w * n
     M = 1 << W
     lim = (M >> 1) if signed else M
-    deg = rng.choice([1, 2, 3, 4, 5, 7, 8, 16, 17, 31, 32, 40, 64, 100, 255, W - 1, W, W + 1, W + 2, (1 << 32) - 1, rng.randrange(1, 2 * W + 3)])
-    deg = max(1, deg)
-    c = rng.randrange(8)
-    if c <= 3:
-        k = rng.randrange(0, 1 << min(24, max(1, W // max(1, min(deg, W)))))
-        x = (k ** min(deg, 4096) + rng.choice([-1, 0, 1])) if deg <= 4096 else k
-        x = max(0, x) % lim
+    if rng.random() < 0.3:
+        return gcd_pair(rng, w, n, signed)
+    gb = rng.randrange(1, max(2, W // 2))
+    g = rng.randrange(1 << (gb - 1), 1 << gb)
+    rest = max(2, lim // g)
+    pb = rng.randrange(1, max(2, rest.bit_length()))
+    p_ = rng.randrange(1 << (pb - 1), 1 << pb)
+    q_ = max(1, rest // p_ + rng.choice([-2, -1, 0, 0, 0, 1, 2]))
+    a, b = (g * p_) % lim, (g * q_) % lim
+    if rng.random() < 0.5:
+        a, b = b, a
+    if signed:
+        if rng.random() < 0.4:
+            a = pat(-a, W)
+        if rng.random() < 0.4:
+            b = pat(-b, W)
+    return "g*p,g*q@limit", a, b
+
+
+def root_case(rng, w, n, signed, deg=None):
+    """(tag, radicand pattern, degree).  `deg` fixed (2 / 3 for sqrt / cbrt) or drawn here.
+    Radicands: r^deg - 1, r^deg, r^deg + 1 for roots r of EVERY size up to the largest one (the Newton iteration of the
+    crate only runs from 2^128 on, so small roots alone would only ever test num-integer's u128 code), the largest
+    root of the type, both sides of the 2^128 shortcut boundary, and the structured values of gen/common.py."""
+    W = w * n
+    M = 1 << W
+    lim = (M >> 1) if signed else M
+    fixed = deg is not None
+    if not fixed:
+        deg = rng.choice([1, 2, 3, 4, 5, 7, 8, 16, 17, 31, 32, 40, 64, 100, 255, W - 1, W, W + 1, W + 2, (1 << 32) - 1, rng.randrange(1, 2 * W + 3)])
+        deg = max(1, deg)
+    c = rng.randrange(10)
+    if c <= 3 and deg <= 4096:
+        kb = max(1, (W - (1 if signed else 0)) // deg)          # bit length of the largest root
+        j = rng.randrange(1, kb + 1) if rng.random() < 0.6 else kb
+        k = rng.choice([1 << j, (1 << j) - 1, (1 << j) + 1, rng.randrange(1 << (j - 1), 1 << j), rng.randrange(1 << (j - 1), 1 << j)])
+        x = max(0, k ** deg + rng.choice([-1, 0, 0, 1])) % lim
         tag = "k^n"
-    elif c == 4:
-        x = lim - 1
+    elif c == 4 and deg <= 4096:
+        r = iroot(lim - 1, deg)                                   # the largest root of the type
+        x = rng.choice([r ** deg, max(0, r ** deg - 1), lim - 1, (r ** deg + 1) % lim, max(0, (r - 1) ** deg + rng.choice([-1, 0, 1]))])
+        tag = "max-root"
+    elif c == 5 and W > 128 and deg <= 4096:
+        # both sides of the `to_u128` shortcut: 2^128 +- 1 and the perfect powers next to it
+        r = iroot(1 << 128, deg)
+        x = rng.choice([(1 << 128) - 1, 1 << 128, (1 << 128) + 1, r ** deg, (r + 1) ** deg, (r + 1) ** deg - 1, (r + 1) ** deg + 1,
+                        (1 << 128) + rng.randrange(1 << 64), (1 << 127) + rng.randrange(1 << 127)]) % lim
+        tag = "u128-boundary"
+    elif c == 6:
+        x = lim - 1 - rng.choice([0, 0, 1, 2])
         tag = "max"
     else:
         tag, x = value(rng, w, n)
         x %= lim
-    if rng.random() < 0.3 and x > 1:
+    if not fixed and rng.random() < 0.3 and x > 1:
         # degrees right at the value's bit length (early-out guards compare `bits` with n)
         deg = max(1, x.bit_length() + rng.choice([-2, -1, -1, 0, 1]))
-    if signed and rng.random() < 0.4 and deg % 2 == 1:
+    if not fixed and rng.random() < 0.04:
+        deg = 0                      # "attempt to calculate zeroth root" (both signednesses, any radicand)
+        tag += ":deg0"
+    if signed and rng.random() < 0.4 and (deg % 2 == 1 or rng.random() < 0.2):
+        # odd degree: sign preserved; even degree (or 0) of a negative number: panic
         x = pat(-x, W)
         if rng.random() < 0.2:
             x = M >> 1
+        if deg % 2 == 0:
+            tag += ":neg-even"
     return tag, x, deg
 
 
 BIN = ["nt_checked_add", "nt_checked_sub", "nt_checked_mul", "nt_wrapping_add", "nt_wrapping_sub", "nt_wrapping_mul",
-       "nt_saturating_add", "nt_saturating_sub", "nt_overflowing_add", "nt_overflowing_sub"]
+       "nt_saturating_add", "nt_saturating_sub", "nt_overflowing_add", "nt_overflowing_sub",
+       # by-reference SaturatingAdd / SaturatingSub / SaturatingMul (distinct impls from the by-value `Saturating`)
+       "nt_saturating_add_ref", "nt_saturating_sub_ref", "nt_saturating_mul_ref"]
 DIVS = ["nt_div_floor", "nt_mod_floor", "nt_div_rem", "nt_div_mod_floor", "nt_is_multiple_of", "nt_checked_div", "nt_checked_rem",
-        "nt_checked_div_euclid", "nt_checked_rem_euclid", "nt_div_euclid", "nt_rem_euclid"]
+        "nt_checked_div_euclid", "nt_checked_rem_euclid", "nt_div_euclid", "nt_rem_euclid", "nt_divides"]
+# num-integer's provided methods: they end in an unsuffixed `+` / `-`, so the answer depends on the build profile
+DIVS_MODE = ["nt_div_ceil", "nt_next_multiple_of", "nt_prev_multiple_of"]
 UN = ["nt_is_even", "nt_is_odd", "nt_checked_neg", "nt_wrapping_neg", "nt_count_ones", "nt_count_zeros", "nt_leading_zeros",
-      "nt_trailing_zeros", "nt_swap_bytes", "nt_to_be", "nt_to_le", "nt_is_zero", "nt_is_one"]
-SH = ["nt_rotate_left", "nt_rotate_right", "nt_unsigned_shl", "nt_unsigned_shr", "nt_signed_shl", "nt_signed_shr"]
+      "nt_trailing_zeros", "nt_swap_bytes", "nt_to_be", "nt_to_le", "nt_is_zero", "nt_is_one",
+      "nt_leading_ones", "nt_trailing_ones", "nt_reverse_bits", "nt_from_be", "nt_from_le"]
+# amounts over all of u32 (`shift_amount`): rotates reduce mod BITS, checked_* answer None from BITS on, wrapping_* mask
+SH = ["nt_rotate_left", "nt_rotate_right", "nt_checked_shl", "nt_checked_shr", "nt_wrapping_shl", "nt_wrapping_shr"]
+# `self << n` / `self >> n`: panic from BITS on with debug assertions, wrapping shift without
+SH_MODE = ["nt_unsigned_shl", "nt_unsigned_shr", "nt_signed_shl", "nt_signed_shr"]
+MODES = ("dbg", "rel")
+
+
+def mult_pair(rng, w, n, signed):
+    """(tag, x, y) for div_ceil / next_multiple_of / prev_multiple_of: x = k*y + r next to the type limits, so that
+    the rounded multiple is the last representable one or the first one that is not"""
+    W = w * n
+    M = 1 << W
+    lim = (M >> 1) if signed else M
+    if rng.random() < 0.4:
+        return div_pair(rng, w, n, signed)
+    B = 1 << w
+    y = rng.choice([1, 2, 3, 7, 10, B - 1, B, B + 1, lim - 1, lim // 2, lim // 2 + 1, lim // 3, rng.randrange(1, lim),
+                    rng.randrange(1, 1 << rng.randrange(1, W))])
+    y = max(1, min(y, lim - 1))
+    k = max(0, (lim - 1) // y - rng.choice([0, 0, 0, 1, 2]))
+    x = min(lim - 1, k * y + rng.choice([0, 0, 1, y - 1, y // 2, rng.randrange(y)]))
+    tag = "k*y+r@limit"
+    if signed:
+        if rng.random() < 0.5:
+            x = -x - rng.choice([0, 0, 1])           # down to MIN itself
+            x = max(x, -lim)
+        if rng.random() < 0.5:
+            y = -y
+    return tag, pat(x, W), pat(y, W)
+
+
+def radix_line(rng, cfgs_, w, n, signed):
+    """Num::from_str_radix through the trait: every radix 2..=36, digits with letters in both cases, signs, empty /
+    lone-sign / over-long / one-invalid-character strings around the capacity, and radices outside 2..=36 (panic)."""
+    for _ in range(8):
+        if rng.random() < 0.12:
+            r = rng.choice([0, 1, 37, 38, 64, 256, (1 << 32) - 1])
+            t, b = str_case(rng, w, n, signed, rng.choice([2, 10, 36]))
+            t = "bad-radix:" + t
+        else:
+            r = rng.choice([2, 3, 4, 8, 10, 16, 32, 36, rng.randrange(2, 37), rng.randrange(2, 37)])
+            t, b = str_case(rng, w, n, signed, r)
+        try:
+            b.decode("utf-8")       # the trait takes a &str: only well-formed UTF-8 can be passed
+        except UnicodeDecodeError:
+            continue
+        return f"nt_from_str_radix {cfgs_} {r} {b.hex() if b else '-'}", "str:" + t
+    return f"nt_from_str_radix {cfgs_} 10 30", "str:zero"
 
 
 def _degree_sweep(rng, tier):
@@ -94,8 +200,136 @@ def _degree_sweep(rng, tier):
                     yield f"nt_nth_root {s}{cfg} {mode} {hx(x)} {d}", "degree-sweep"
 
 
+# per configuration: how many lines of the widest instantiations (8192 bits) the quick tier can afford — the Lean model
+# works on digit LISTS, so a 1024-digit Newton iteration or binary gcd costs seconds
+# (lines, classes of the first lines; `None` = any class, the remaining lines are drawn from the cheap classes)
+HUGE_QUICK = {"64x128": (18, [None] * 18), "32x256": (10, [None] * 6), "16x512": (8, [0, 4, 1]), "8x1024": (5, [0, 1])}
+
+
+def _huge_case(rng, cfg, cheap, force=None):
+    """one request at 8192 bits (`cheap`: only the classes whose model run stays around a second at 1024 digits;
+    `force`: this class)"""
+    w, n = wn(cfg)
+    W = w * n
+    M = 1 << W
+    s = rng.choice("ui")
+    sg = s == "i"
+    lim = (M >> 1) if sg else M
+    hv = huge_values(rng, cfg)
+    mode = rng.choice(MODES)
+    x = rng.choice(hv[:6]) % lim
+    if x < 2:
+        x = lim - 1 - rng.randrange(3)
+    # 0 sqrt, 1 root of degree ~ bit length, 3 cbrt, 4 nth_root, 9 pow: Newton iterations / long multiplications (expensive
+    # in the model); 2 division family, 5 gcd / lcm, 6 multiplications, 7 shifts, 8 unary: cheap
+    c = rng.choice([2, 2, 2, 5, 5, 6, 6, 7, 8] if cheap else [0, 0, 1, 1, 2, 2, 3, 3, 4, 4, 4, 5, 5, 6, 9])
+    if force is not None:
+        c = force
+    def straddle(d):
+        """r^d - 1 / r^d / r^d + 1 for a root r of full size (Newton must settle on exactly r resp. r - 1)"""
+        kb = (W - (1 if sg else 0)) // d
+        r = rng.choice([rng.randrange(1 << (kb - 1), 1 << kb), (1 << kb) - 1, iroot(lim - 1, d)]) if kb >= 2 else 2
+        return max(2, (r ** d + rng.choice([-1, 0, 1])) % lim)
+    if c == 0:
+        if rng.random() < 0.6:
+            x = straddle(2)
+        return f"nt_sqrt {s}{cfg} {mode} {hx(x)}", "huge:sqrt"
+    if c == 1:
+        # degree at / around the bit length (early-out `bits <= n`), tiny root
+        d = max(1, x.bit_length() + rng.choice([-3, -2, -1, 0, 1]))
+        if sg and d % 2 == 1 and rng.random() < 0.5:
+            x = pat(-x, W)
+        return f"nt_nth_root {s}{cfg} {mode} {hx(x)} {d}", "huge:root-deg~bits"
+    if c == 2:
+        # floor division family: dividend dense, divisor of every length, all sign combinations
+        a = rng.choice(hv[:6])
+        b = max(1, rng.choice(hv[:6]) >> (w * rng.randrange(0, n)))
+        if rng.random() < 0.3:
+            a = (a // b) * b % M        # exact multiple: the remainder-is-zero arm
+        if sg:
+            a, b = a % lim, max(1, b % lim)
+            if rng.random() < 0.5:
+                a = pat(-a, W)
+            if rng.random() < 0.5:
+                b = pat(-b, W)
+        op = rng.choice(["nt_div_floor", "nt_mod_floor", "nt_div_rem", "nt_div_mod_floor", "nt_is_multiple_of", "nt_divides",
+                         "nt_div_euclid", "nt_rem_euclid", "nt_checked_div_euclid"])
+        if rng.random() < 0.3:
+            return f"{rng.choice(DIVS_MODE)} {s}{cfg} {mode} {hx(a)} {hx(b)}", "huge:div"
+        return f"{op} {s}{cfg} {hx(a)} {hx(b)}", "huge:div"
+    if c == 3:
+        if rng.random() < 0.6:
+            x = straddle(3)
+        if sg and rng.random() < 0.5:
+            x = pat(-x, W)
+        return f"nt_cbrt {s}{cfg} {mode} {hx(x)}", "huge:cbrt"
+    if c == 4:
+        # Newton from the guess 2^(bits/d+1) needs about d*ln(guess/root) steps, each with a `checked_pow(d-1)`: degrees
+        # between ~64 and BITS/4 cost minutes in the list-based model at 8192 bits (they are swept at <= 4096 bits by
+        # `_degree_sweep`); small degrees and degrees >= BITS/4 (root < 16) are affordable
+        d = rng.choice([4, 5, 7, 8, 16, 17, 31, 32, 33, 64, W // 4, W // 4 + 1, W // 3, W // 2 - 1, W // 2, W // 2 + 1, 4095, 4096, 4097, W - 1]
+                       + ([100, 127] if cfg == "64x128" else []))
+        if rng.random() < 0.6:
+            x = straddle(d)
+        if sg and d % 2 == 1 and rng.random() < 0.5:
+            x = pat(-x, W)
+        return f"nt_nth_root {s}{cfg} {mode} {hx(x)} {d}", "huge:nth_root"
+    if c == 5:
+        # gcd / lcm: big common factor (few iterations of the binary gcd: the quotients are small)
+        hb = W // 2 - 8
+        g = rng.randrange(1 << (hb - 1), 1 << hb)
+        p_, q_ = rng.choice([(1, 1), (3, 5), (2, 7), (255, 256), (rng.randrange(1, 200), rng.randrange(1, 200))])
+        # common and individual powers of two of every size (the trailing-zero bookkeeping of the binary gcd)
+        sh = rng.choice([0, rng.randrange(0, 3 * w), rng.randrange(0, W // 2 - 16)])
+        a, b = ((g * p_) << sh) % lim, ((g * q_) << rng.choice([sh, sh, rng.randrange(0, W // 2 - 16)])) % lim
+        if sg:
+            if rng.random() < 0.5:
+                a = pat(-a, W)
+            if rng.random() < 0.5:
+                b = pat(-b, W)
+        return f"{rng.choice(['nt_gcd', 'nt_lcm', 'nt_gcd_lcm'])} {s}{cfg} {mode} {hx(a)} {hx(b)}", "huge:gcd-lcm"
+    if c == 6:
+        # the arithmetic forwarders on dense operands (carry / column sums at their maxima), product straddling the limit
+        a, b, c3 = rng.choice(hv), rng.choice(hv), rng.choice(hv)
+        if rng.random() < 0.6:
+            hb = rng.randrange(1, W)
+            a = rng.randrange(1 << (hb - 1), 1 << hb)
+            b = (lim - 1) // a + rng.choice([-1, 0, 0, 1])
+            c3 = (lim - 1) - a * ((lim - 1) // a) + rng.choice([0, 1])
+        op = rng.choice(["nt_mul_add", "nt_mul_add_assign"])
+        if rng.random() < 0.5:
+            return f"{rng.choice(['nt_checked_mul', 'nt_saturating_mul_ref', 'nt_wrapping_mul'])} {s}{cfg} {hx(a % M)} {hx(b % M)}", "huge:mul"
+        return f"{op} {s}{cfg} {mode} {hx(a % M)} {hx(b % M)} {hx(c3 % M)}", "huge:mul_add"
+    if c == 7:
+        a = rng.choice(hv)
+        k = rng.choice([0, 1, w - 1, w, w + 1, W // 2, W - w, W - 1, W, W + 1, rng.randrange(W), rng.randrange(W)])
+        op = rng.choice(SH + SH_MODE)
+        if op in SH_MODE:
+            return f"{op} {s}{cfg} {mode} {hx(a)} {k}", "huge:shift"
+        return f"{op} {s}{cfg} {hx(a)} {k}", "huge:shift"
+    if c == 8:
+        a = rng.choice(hv)
+        if rng.random() < 0.5:
+            k = rng.randrange(W)
+            a = rng.choice([(1 << k) - 1, M - (1 << k), 1 << k])
+        return f"{rng.choice(UN)} {s}{cfg} {hx(a % M)}", "huge:unary"
+    t, a, e = pow_case(rng, w, n, sg)
+    return f"{rng.choice(['nt_pow', 'nt_primint_pow'])} {s}{cfg} {mode} {hx(a)} {e}", "huge:pow"
+
+
+def _huge(rng, tier):
+    """the widest in-scope instantiation of every digit type (8x1024, 16x512, 32x256, 64x128 = 8192 bits)"""
+    mul = 4 if tier == "thorough" else 1
+    for cfg in HUGE_CFGS:
+        k, first = HUGE_QUICK[cfg]
+        first = first * mul
+        for i in range(k * mul):
+            yield _huge_case(rng, cfg, i >= len(first), first[i] if i < len(first) else None)
+
+
 def gen(rng, tier):
     yield from _degree_sweep(rng, tier)
+    yield from _huge(rng, tier)
     reps = 60 if tier == "thorough" else 8
     for cfg in cfgs(tier):
         w, n = wn(cfg)
@@ -108,12 +342,23 @@ def gen(rng, tier):
                 t, a, b = gcd_pair(rng, w, n, sg)
                 for mode in ("dbg", "rel"):
                     yield f"nt_gcd {s}{cfg} {mode} {hx(a)} {hx(b)}", t
-                t, a, b = gcd_pair(rng, w, n, sg)
+                t, a, b = lcm_pair(rng, w, n, sg)
                 for mode in ("dbg", "rel"):
                     yield f"nt_lcm {s}{cfg} {mode} {hx(a)} {hx(b)}", t
                 for op in DIVS:
                     t, a, b = div_pair(rng, w, n, sg)
                     yield f"{op} {s}{cfg} {hx(a)} {hx(b)}", t
+                for op in DIVS_MODE:
+                    t, a, b = mult_pair(rng, w, n, sg)
+                    for mode in MODES:
+                        yield f"{op} {s}{cfg} {mode} {hx(a)} {hx(b)}", t
+                t, a, b = lcm_pair(rng, w, n, sg)
+                mode = rng.choice(MODES)
+                yield f"nt_gcd_lcm {s}{cfg} {mode} {hx(a)} {hx(b)}", t
+                t, a = value(rng, w, n)
+                op = rng.choice(["nt_inc", "nt_dec"])
+                for mode in MODES:
+                    yield f"{op} {s}{cfg} {mode} {hx(a)}", t
                 for op in BIN:
                     t, a, b = pair(rng, w, n)
                     yield f"{op} {s}{cfg} {hx(a)} {hx(b)}", t
@@ -122,15 +367,20 @@ def gen(rng, tier):
                     yield f"{op} {s}{cfg} {hx(a)}", t
                 for op in SH:
                     t, a = value(rng, w, n)
-                    k = rng.randrange(0, W)
+                    k = shift_amount(rng, w, n)
                     yield f"{op} {s}{cfg} {hx(a)} {k}", t
+                for op in SH_MODE:
+                    t, a = value(rng, w, n)
+                    k = shift_amount(rng, w, n)
+                    for mode in MODES:
+                        yield f"{op} {s}{cfg} {mode} {hx(a)} {k}", t
                 t, x, deg = root_case(rng, w, n, sg)
                 for mode in ("dbg", "rel"):
                     yield f"nt_nth_root {s}{cfg} {mode} {hx(x)} {deg}", t
-                t, x, _ = root_case(rng, w, n, False)
+                t, x, _ = root_case(rng, w, n, sg, 2)
                 for mode in ("dbg", "rel"):
                     yield f"nt_sqrt {s}{cfg} {mode} {hx(x)}", t
-                t, x, _ = root_case(rng, w, n, sg)
+                t, x, _ = root_case(rng, w, n, sg, 3)
                 for mode in ("dbg", "rel"):
                     yield f"nt_cbrt {s}{cfg} {mode} {hx(x)}", t
                 t, a, e = pow_case(rng, w, n, sg)
@@ -138,6 +388,8 @@ def gen(rng, tier):
                 for mode in ("dbg", "rel"):
                     yield f"nt_pow {s}{cfg} {mode} {hx(a)} {e}", t
                     yield f"nt_mul_add {s}{cfg} {mode} {hx(a)} {hx(b2)} {hx(c2)}", t2
+                    yield f"nt_mul_add_assign {s}{cfg} {mode} {hx(b2)} {hx(c2)} {hx(a)}", t2
+                    yield f"nt_primint_pow {s}{cfg} {mode} {hx(a)} {e}", t
                     if sg:
                         yield f"nt_abs i{cfg} {mode} {hx(a)}", t
                         yield f"nt_abs_sub i{cfg} {mode} {hx(b2)} {hx(c2)}", t2
@@ -148,3 +400,5 @@ def gen(rng, tier):
                 for op in ("nt_min_value", "nt_max_value", "nt_zero", "nt_one"):
                     yield f"{op} {s}{cfg}", "const"
                 yield f"nt_from_str_radix {s}{cfg} {rng.choice([2, 10, 16, 36])} {('-' if sg and rng.random() < 0.5 else '').encode().hex()}{str(rng.randrange(1 << min(W, 60))).encode().hex()}", "str"
+                yield radix_line(rng, s + cfg, w, n, sg)
+                yield radix_line(rng, s + cfg, w, n, sg)
